@@ -18,7 +18,12 @@ PoolSmall == {
   T("callok",   "call",     "u2", "u2", "this",  "c1", 1, "ok"),
   T("callfail", "call",     "u1", "u1", "this",  "c1", 1, "fail"),
   T("fdok",     "fdcall",   "u2", "u2", "this",  "c1", 0, "ok"),
-  T("fdfail",   "fdcall",   "u1", "u1", "this",  "c1", 0, "fail")
+  T("fdfail",   "fdcall",   "u1", "u1", "this",  "c1", 0, "fail"),
+  \* the name as SENDER account.  "name" above registers n1 for u2; nameupd hands it over to u1.
+  T("nameupd",  "nameupd",  "u2", "u2", "this",  "u1", 0, ""),
+  T("nxfer2",   "transfer", "n1", "u2", "this",  "u1", 1, ""),     \* signed by u2: the owner, after nameupd the PREVIOUS owner
+  T("nxfer1",   "transfer", "n1", "u1", "this",  "u2", 1, ""),     \* signed by u1: a stranger, after nameupd the NEW owner
+  T("nxfer2as1","transfer", "n1", "u2", "this",  "u2", 1, "u1")    \* signed by u2 with the next nonce of u1 (the party the name is handed to)
 }
 
 \* larger pool for generation by simulation (3 users)
@@ -37,9 +42,17 @@ PoolGen == PoolSmall \cup {
   T("callsys",  "call",     "u2", "u2", "this",  "c1", 1, "sys"),
   T("fdsys",    "fdcall",   "u3", "u3", "this",  "c1", 0, "sys"),
   T("setownself","setowner","u2", "u2", "this",  "u2", 0, ""),
-  T("setownoth", "setowner","u3", "u3", "this",  "u1", 0, "")
+  T("setownoth", "setowner","u3", "u3", "this",  "u1", 0, ""),
+  T("nameupd3", "nameupd",  "u3", "u3", "this",  "u2", 0, ""),     \* (after name3) u3 hands n1 over to u2
+  T("nameupdbk","nameupd",  "u1", "u1", "this",  "u2", 0, ""),     \* u1 hands it (back) to u2
+  T("nameupdn", "nameupd",  "n1", "u2", "this",  "u3", 0, ""),     \* v1updateName sent FROM the name, signed by u2: n1 goes to u3
+  T("nxfer3",   "transfer", "n1", "u3", "this",  "u1", 2, ""),     \* signed by u3: a stranger unless name3 / nameupdn made u3 the owner
+  T("nxfer1as2","transfer", "n1", "u1", "this",  "u3", 1, "u2"),   \* signed by u1 with the next nonce of u2
+  T("nxfer3as2","transfer", "n1", "u3", "this",  "u3", 1, "u2"),   \* signed by u3 with the next nonce of u2
+  T("nxferfor", "transfer", "n1", "u2", "other", "u1", 1, ""),     \* signed by the owner but bound to another chain
+  T("ncall2",   "call",     "n1", "u2", "this",  "c1", 1, "fail")  \* a failing call from the name: fee and nonce of the resolved account only
 }
 AllModes == {"next", "dup", "gap"}
-GenView == [bal |-> bal, nonce |-> nonce, staked |-> staked, total |-> total, owner |-> owner, deployed |-> deployed,
+GenView == [bal |-> bal, nonce |-> nonce, staked |-> staked, total |-> total, owner |-> owner, name0 |-> name0, deployed |-> deployed,
             store |-> store, bpReward |-> bpReward, burnt |-> burnt, blockNo |-> blockNo, inBlock |-> inBlock]
 =============================================================================
